@@ -8,6 +8,9 @@ Ops (one answer line each):
   L2 policy tree   ep <method> <url> r=<name:type:0|1,...|-> d=<name:0|1,...|->   -> ok
                    glob r=<...> d=<...>      -> ok
                    build [perm=<i,j,...>]    -> ok | err:dup | err:empty | err:wildcard | err:param
+  L4 production    load [perm=..] (= build, through policies.yaml and TxnPoliciesAccessor.ReloadFromFile)
+                   revert free|last           -> ok   (RevertToDiagnosisFree / RevertToLastLoaded)
+                   spoe <method> <url>        -> as disp (lunar-on-request through routing.Handler, policy mode)
                    disp <method> <url>       -> no-tree | unsupported | noop | early=<first remedy> n=<active on request leg> resp=<active on response leg>
                    req <method> <url>        -> no-tree | val=<0|1> pol=<url|-> rem=<names|-> grem=<..> diag=<..>
                                                 gdiag=<..> sd=<0|1> norm=<url> params=<k=v,...|->
@@ -60,6 +63,8 @@ structure RunSt where
   eps : List Endpoint := []        -- as declared (oldest first)
   glob : Globals := ⟨[], []⟩
   pt : Option PTree := none
+  declGlob : Globals := ⟨[], []⟩    -- globals as declared (`glob` is what is in force)
+  loaded : List Endpoint := []      -- the endpoints of the last `load`/`build`, in their order
   onlyFix : Bool := true           -- every remedy declared so far is a fixed-response one (type 7)
 
 def fmtBuildErr : BuildErr → String
@@ -74,6 +79,31 @@ def fmtReq (pt : PTree) (g : Globals) (m url : String) : String :=
   let pol := match s.policy with | some p => pctEnc p.url | none => "-"
   let (norm, params) := if s.hasValue then (pctEnc (renderParts s.norm), fmtParams s.params) else ("%e", "-")
   s!"val={if s.hasValue then 1 else 0} pol={pol} rem={fmtNames rem} grem={fmtNames grem} diag={fmtNames dg} gdiag={fmtNames gdg} sd={if shouldDiagnose pt g m us then 1 else 0} norm={norm} params={params}"
+
+def runBuild (s : RunSt) (ws : List String) : RunSt × String :=
+  let perm := match kv ws "perm" with
+    | some p => parsePerm p
+    | none => if ws.isEmpty then some (List.range s.eps.length) else none
+  match perm with
+  | none => (s, "bad-op")
+  | some perm =>
+    let es := applyPerm s.eps perm
+    match build es with
+    | .ok pt => ({ s with pt := some pt, loaded := es, glob := s.declGlob }, "ok")
+    | .error e => ({ s with pt := none, loaded := es, glob := s.declGlob }, fmtBuildErr e)
+
+/-- runner.DispatchOnRequest with fixed-response / retry remedies only: the first selected fixed-response
+    remedy answers; the early answer then runs through the response leg (retry remedies act there). -/
+def runDisp (s : RunSt) (m url : String) : RunSt × String :=
+  match s.pt with
+  | none => (s, "no-tree")
+  | some pt =>
+    if !s.onlyFix then (s, "unsupported") else
+    let us := splitURL (pctDec url)
+    match dispatchFirst pt s.glob (pctDec m) us with
+    | none => (s, "noop")
+    | some first =>
+      (s, s!"early={first} n={dispatchActive pt s.glob (pctDec m) us} resp={dispatchRespActive pt s.glob (pctDec m) us}")
 
 def runStep (s : RunSt) (line : String) : RunSt × String :=
   match words line with
@@ -94,34 +124,30 @@ def runStep (s : RunSt) (line : String) : RunSt × String :=
     | _, _ => (s, "bad-op")
   | "glob" :: ws =>
     match (kv ws "r").bind parseRemedies, (kv ws "d").bind parseDiags with
-    | some rs, some ds => ({ s with glob := ⟨rs, ds⟩, onlyFix := s.onlyFix && rs.all (fun r => r.type == 7 || r.type == 8) }, "ok")
+    | some rs, some ds => ({ s with glob := ⟨rs, ds⟩, declGlob := ⟨rs, ds⟩, onlyFix := s.onlyFix && rs.all (fun r => r.type == 7 || r.type == 8) }, "ok")
     | _, _ => (s, "bad-op")
-  | "build" :: ws =>
-    let perm := match kv ws "perm" with
-      | some p => parsePerm p
-      | none => if ws.isEmpty then some (List.range s.eps.length) else none
-    match perm with
-    | none => (s, "bad-op")
-    | some perm =>
-      match build (applyPerm s.eps perm) with
-      | .ok pt => ({ s with pt := some pt }, "ok")
-      | .error e => ({ s with pt := none }, fmtBuildErr e)
+  | "build" :: ws => runBuild s ws
+  | "load" :: ws => runBuild s ws     -- the same declarations through the YAML loader: same outcome
+  | ["revert", kind] =>
+    -- TxnPoliciesAccessor.RevertToDiagnosisFree / RevertToLastLoaded: rebuild from the persisted copies
+    match s.pt with
+    | none => (s, "no-tree")
+    | some _ =>
+      if kind == "free" then
+        match build (diagnosisFree s.loaded) with
+        | .ok pt => ({ s with pt := some pt, glob := s.declGlob.diagnosisFree }, "ok")
+        | .error e => ({ s with pt := none }, fmtBuildErr e)
+      else if kind == "last" then
+        match build s.loaded with
+        | .ok pt => ({ s with pt := some pt, glob := s.declGlob }, "ok")
+        | .error e => ({ s with pt := none }, fmtBuildErr e)
+      else (s, "bad-op")
+  | ["spoe", m, url] => runDisp s m url   -- the same dispatch, entered through the SPOE handler
   | ["req", m, url] =>
     match s.pt with
     | none => (s, "no-tree")
     | some pt => (s, fmtReq pt s.glob (pctDec m) (pctDec url))
-  | ["disp", m, url] =>
-    -- runner.DispatchOnRequest with fixed-response / retry remedies only: the first selected fixed-response
-    -- remedy answers; the early answer then runs through the response leg (retry remedies act there)
-    match s.pt with
-    | none => (s, "no-tree")
-    | some pt =>
-      if !s.onlyFix then (s, "unsupported") else
-      let us := splitURL (pctDec url)
-      match dispatchFirst pt s.glob (pctDec m) us with
-      | none => (s, "noop")
-      | some first =>
-        (s, s!"early={first} n={dispatchActive pt s.glob (pctDec m) us} resp={dispatchRespActive pt s.glob (pctDec m) us}")
+  | ["disp", m, url] => runDisp s m url
   | _ => (s, "bad-op")
 
 /-! ### judge -/
@@ -164,6 +190,7 @@ structure JudgeSt where
   ins : List (List Part × Nat) := []              -- L1: successfully inserted (declared parts, value)
   insU : Bool := false                            -- L1: an undeclared `Insert` took place
   looks : List (List Part × LookAnswer) := []
+  loaded : List Endpoint := []                    -- the endpoints of the last build/load, in their order
   cur : Option Round := none                      -- current build round
   rounds : List Round := []                       -- finished rounds, newest first
   bad : Option String := none
@@ -172,6 +199,17 @@ def JudgeSt.flush (s : JudgeSt) : JudgeSt :=
   match s.cur with
   | some r => { s with rounds := r :: s.rounds, cur := none }
   | none => s
+
+def judgeBuild (s : JudgeSt) (ws : List String) (out : String) : JudgeSt :=
+  let perm := match kv ws "perm" with
+    | some p => parsePerm p
+    | none => some (List.range s.eps.length)
+  match perm with
+  | none => { s with bad := some "unparsable-op" }
+  | some perm =>
+    let s := s.flush
+    { s with loaded := applyPerm s.eps perm,
+             cur := some { eps := applyPerm s.eps perm, built := out, reqs := [] } }
 
 def judgeStep (s : JudgeSt) (op out : String) : JudgeSt :=
   if out.startsWith "panic" then { s with bad := some ("impl-panic:" ++ out) } else
@@ -194,15 +232,16 @@ def judgeStep (s : JudgeSt) (op out : String) : JudgeSt :=
     match (kv ws "r").bind parseRemedies, (kv ws "d").bind parseDiags with
     | some rs, some ds => { s with glob := ⟨rs, ds⟩ }
     | _, _ => { s with bad := some "unparsable-op" }
-  | "build" :: ws =>
-    let perm := match kv ws "perm" with
-      | some p => parsePerm p
-      | none => some (List.range s.eps.length)
-    match perm with
-    | none => { s with bad := some "unparsable-op" }
-    | some perm =>
-      let s := s.flush
-      { s with cur := some { eps := applyPerm s.eps perm, built := out, reqs := [] } }
+  | "build" :: ws => judgeBuild s ws out
+  | "load" :: ws => judgeBuild s ws out
+  | ["revert", kind] =>
+    if out == "no-tree" then s else
+    let s := s.flush
+    if kind == "free" then
+      { s with cur := some { eps := diagnosisFree s.loaded, built := out, reqs := [],
+                             glob := some s.glob.diagnosisFree, mode := "free" } }
+    else
+      { s with cur := some { eps := s.loaded, built := out, reqs := [] } }
   | ["req", m, url] =>
     match s.cur with
     | none => s
@@ -211,7 +250,8 @@ def judgeStep (s : JudgeSt) (op out : String) : JudgeSt :=
       match parseAnswer (words out) with
       | some a => { s with cur := some { r with reqs := r.reqs ++ [⟨pctDec m, pctDec url, splitURL (pctDec url), a⟩] } }
       | none => { s with bad := some ("unparsable-output:" ++ pctEnc out) }
-  | ["disp", m, url] =>
+  | [op, m, url] =>
+    if op != "disp" && op != "spoe" then s else
     match s.cur, kv (words out) "early" with
     | some r, some first =>
       { s with cur := some { r with disps := r.disps ++
